@@ -88,6 +88,17 @@ def labels_for(n, prefix, scheme='str'):
     return [f'{prefix}{i}' if i % 2 == 0 else 10 * i + (1 if prefix == 'r' else 2) for i in range(n)]
 
 
+ROOT_KEYS = {   # exceptions whose root lies in a shared helper get one key, independent of the entry point
+    'np.in1d-removed-in-numpy2': 'C14:util.isin_array:np.in1d-removed-in-numpy2',
+    'TypeError-NoneType-not-iterable': 'C14:Frame.reindex(index,columns):one-axis-without-common-labels-TypeError',
+}
+
+
+def raise_key(container, name, e):
+    tag = exc_tag(e)
+    return ROOT_KEYS.get(tag, f'C14:{container}.{name}:raises-{tag}')
+
+
 def exc_tag(e):
     """stable root-cause tag for an exception raised by the operation under test"""
     msg = str(e)
@@ -463,7 +474,7 @@ def check_frame_case(rows, kinds, pattern, lay, op, tier, cache=None):
     try:
         res = frame_apply(f, op, filler_frames)
     except Exception as e:  # raised by the operation under test
-        return (f'C14:frame.{name}:raises-{exc_tag(e)}{suffix}', f'Frame.{op} raises {e!r} ({where})')
+        return (raise_key('frame', name, e), f'Frame.{op} raises {e!r} ({where})')
     v = frame_verify(res, expd, vals, miss, rlabels, clabels, f)
     if v is None:
         return None
@@ -539,7 +550,7 @@ def check_series_case(n, kind, pattern, op):
     try:
         res = series_apply(s, op, filler_series)
     except Exception as e:
-        return (f'C14:series.{name}:raises-{exc_tag(e)}', f'Series.{op} raises {e!r} for kind={kind} n={n} pattern={pattern:#x}')
+        return (raise_key('series', name, e), f'Series.{op} raises {e!r} for kind={kind} n={n} pattern={pattern:#x}')
     where = f'(kind={kind} n={n} pattern={pattern:#x})'
     if expd[0] == 'count':
         if isinstance(res, (bool, np.bool_)) or int(res) != expd[1]:
@@ -578,6 +589,7 @@ M3_QUICK = [('fff', 3), ('fif', 3), ('OfM', 3), ('ffU', 3), ('bOO', 3), ('MMf', 
 M4_QUICK = ['ffff', 'ffOO', 'ifbf', 'fOMU', 'MMif', 'OiUf']                                              # rows 1..2
 M4_THOROUGH_2ROWS = M4_QUICK + ['fOMf', 'OOOO', 'MfMf', 'fMOb', 'OOff']
 M4_THOROUGH_3ROWS = ['ffff', 'ifbf', 'fOMU', 'MMif', 'OiUf', 'fifU', 'iObM', 'fiiU', 'OffU', 'fOiM']    # 3x4
+M3_THOROUGH_3ROWS_ALL_NULLABLE = ['fff', 'ffO', 'fOf', 'Off', 'OOO', 'MMM', 'fMf', 'OfM', 'MfO', 'ffM', 'MOf', 'OOf']   # 512 patterns each
 CHUNK = 32
 
 
@@ -597,8 +609,11 @@ def kind_tuples(tier):
                 yield rows, kinds
     else:
         for kinds in itertools.product(six, repeat=3):
+            kinds = ''.join(kinds)
             for rows in (1, 2, 3):
-                yield rows, ''.join(kinds)
+                if rows == 3 and all(k in NULLABLE for k in kinds) and kinds not in M3_THOROUGH_3ROWS_ALL_NULLABLE:
+                    continue
+                yield rows, kinds
         seen = set()
         for kinds in itertools.product('fOiU', repeat=4):
             kinds = ''.join(kinds)
@@ -639,7 +654,7 @@ def run(repo, task):
                       'holds >= 1 missing cell',
                  bound=('quick: all kind tuples over {float64, object(None/NaN/NaT), datetime64[D], int64, bool, <U3} for 1-2 columns x 1-3 rows, 7 tuples of 3 columns x 1-3 rows, '
                         '6 tuples of 4 columns x 1-2 rows (i.e. up to 3x3 and 2x4); Series length <= 5' if tier == 'quick' else
-                        'thorough: all kind tuples for 1-3 columns x 1-3 rows, 4 columns x 1-2 rows for every tuple over {f,O,i,U} with <= 2 nullable columns plus 11 selected, '
+                        'thorough: all kind tuples for 1-3 columns x 1-3 rows (3x3 with three nullable columns: 12 of the 27 tuples), 4 columns x 1-2 rows for every tuple over {f,O,i,U} with <= 2 nullable columns plus 11 selected, '
                         '3x4 for 10 selected tuples (ffff: all 4096 patterns); Series length <= 7') + '; exhaustive over missing patterns, layouts and limits')
     cases = itertools.chain(series_cases(tier), frame_cases(tier))
     for case in rep.shard(cases):
